@@ -143,6 +143,15 @@ static int bee_main(int argc, char **argv) {
         v_out("INFO section %s items=%" PRIu64 " wall=%.2fs violations=%" PRIu64, bee_sections[s].name, total,
               v_now() - t0, (uint64_t)(v_sh->viol_count - v0));
     }
+    {
+        /* a harness may abandon items it cannot judge in this environment (counter "items_abandoned"): never a verdict,
+         * but the run is then not exhaustive */
+        uint64_t ab = v_counter_value("items_abandoned");
+        if (ab) {
+            v_exhaustive = 0;
+            v_out("INFO NOTE %" PRIu64 " item(s) abandoned without a verdict", ab);
+        }
+    }
     v_finish();
     return v_sh->viol_count ? 1 : 0;
 }
